@@ -10,7 +10,7 @@ from lsx import driver, bv2int
 
 def install_exact(eng):
     eng.alt_solver = lambda pc, cond: bv2int.solve_exact(pc, cond, 60000, eng.stats, getattr(eng, 'cur_ranges', None))
-    eng.alt_first = True; eng.inc_timeout_ms = 2000; eng.timeout_ms = 20000
+    eng.alt_first = True; eng.alt_trust_sat = True; eng.inc_timeout_ms = 2000; eng.timeout_ms = 20000      # exact mode: sat answers are exact too
 common.register_models('exact_fp', install_exact)
 
 def main():
